@@ -57,7 +57,7 @@ theorem conservation (cfg : Cfg) (ops : List Op) (h : (run cfg ops).lost = []) :
     no group is empty; a group above the limit is a single frame. -/
 theorem emitted_is_accepted_partial (cfg : Cfg) (ops : List Op) (hp : ∀ op ∈ ops, op.plain = true)
     (hwf : ∀ f ∈ accepted ops, f.wf) (hl : (run cfg ops).lost = []) :
-    ∃ groups pending,
+    ∃ (groups : List (List Frame)) (pending : List Frame),
       groups.flatten ++ pending = accepted ops ∧
       (run cfg ops).wire.reverse ++ (run cfg ops).chan = groups.map encFrames ∧
       ((run cfg ops).wire.reverse ++ (run cfg ops).chan).map parseDatagram = groups.map some ∧
